@@ -564,6 +564,13 @@ func (s *Session) dataHandler() {
 		s.enterState(QUIT)
 		return
 	}
+	if len(msgBuf) > s.config.MaxMessageBytes {
+		// Reject oversized messages, nothing is stored.
+		s.send("552 Max message size exceeded")
+		s.logger.Warn().Msgf("Client sent oversized message: %v bytes", len(msgBuf))
+		s.reset()
+		return
+	}
 	mailData := bytes.NewBuffer(msgBuf)
 
 	// Generate Received header; Deliver() will append recipient and timestamp to this.
